@@ -2,7 +2,7 @@
 # run every quick check once, print one line per check; usage: tools/runall.sh [seed]
 cd "$(dirname "$0")/.."
 export VERIF_SEED="${1:-1}"
-for p in $(./harness/target/release/fvh list | sort); do
+for p in $(python3 -c "import json;print(' '.join(c['property_id'] for c in json.load(open('MANIFEST.json'))['checks']))"); do
   s=$(date +%s.%N)
   out=$(./check $p quick 2>&1); rc=$?
   e=$(date +%s.%N)
